@@ -14,8 +14,9 @@
 
 /* ---- ghost indices: "for every interval / coefficient / grid point" becomes
  *      "for the arbitrary index g?" (quantifier-free)                                   */
-size_t gq;   /* ghost grid-point index   */
-size_t gj;   /* ghost absolute interval index */
+/* gq (ghost grid-point index) and gj (ghost absolute interval index) are declared in bs_rt_post.h */
+size_t gq;
+size_t gj;
 size_t gk;   /* ghost coefficient index  */
 size_t gi;   /* ghost element index (splines of a collection, knots) */
 size_t gw;   /* ghost witness index for iff-style validation */
@@ -32,13 +33,20 @@ T gx;        /* ghost abscissa */
 #define grid_wf(g)  (GID(g) < BS_NG && GN(g) >= 2 && GN(g) <= BS_CAP)
 /* strictly increasing, adjacent form at one index */
 #define grid_inc_at(g, i)  (!((i) + 1 < GN(g)) || GRID(g, i) < GRID(g, (i) + 1))
-/* strictly increasing: adjacent and global form, quantified (assumption side) */
-#define grid_sorted(g) \
+/* "the vector is strictly increasing" as the two equivalent quantified statements (used only by the
+ * stand-alone lemmas L_sorted_*; no proof about library code has a quantifier in it) */
+#define grid_sorted_adjacent(g) \
   (__CPROVER_forall { size_t bs_q1; (bs_q1 < BS_CAP && bs_q1 + 1 < GN(g)) ==> GV(g).d[bs_q1] < GV(g).d[bs_q1 + 1] })
 #define grid_sorted_global(g) \
   (__CPROVER_forall { size_t bs_q2; __CPROVER_forall { size_t bs_q3; \
       (bs_q2 < bs_q3 && bs_q3 < GN(g) && bs_q3 < BS_CAP) ==> GV(g).d[bs_q2] < GV(g).d[bs_q3] } })
-#define grid_valid(g) (grid_wf(g) && grid_sorted(g))
+/* The ghost flag BS_SORTED[id] *means* grid_sorted_global of heap vector id.  Proofs about code use it
+ * only through instances: SORTED_INST(g,a,b) is the instance of the global statement at the pair (a,b);
+ * harnesses assume the instances a proof needs (each is a consequence of the meaning of the flag), the
+ * Grid constructor establishes the adjacent statement for the arbitrary index gw, and the lemma
+ * L_sorted_adjacent_implies_global (induction, stand-alone) connects the two forms.               */
+#define SORTED_INST(g, a, b) (!(GID(g) < BS_NG) || !BS_SORTED[GID(g)] || !((a) < (b) && (b) < GN(g) && (b) < BS_CAP) || GRID(g, a) < GRID(g, b))
+#define grid_valid(g) (grid_wf(g) && BS_SORTED[GID(g)])
 
 /* logical equality of grids: the ghost relation BS_GEQ on heap ids (bs_rt_post.h) */
 #define grid_eq(g1, g2)  (BS_GEQ[GID(g1)][GID(g2)])
@@ -55,8 +63,83 @@ T gx;        /* ghost abscissa */
 /* interval j (between grid points j and j+1) lies in the window; no j+1, hence no wrap */
 #define HASINT(s, j)   ((j) >= S_START(s) && S_END(s) >= 1 && (j) < S_END(s) - 1)
 #define S_SIZE(s)  (S_END(s) - S_START(s))
+/* a quantifier-free consequence of grid_valid (proved as lemma L_window_hint): the first interval of the window
+ * has positive width.  Given to the solvers as a redundant precondition so that they need not instantiate. */
+#define window_hint(s) SORTED_INST((s)._grid, S_START(s), S_START(s) + 1)
 #define S_NINT(s)  (S_SIZE(s) == 0 ? (size_t)0 : S_SIZE(s) - 1)
 /* same window (both empty counts as same) */
 #define same_window(a, b) ((S_START(a) == S_START(b) && S_END(a) == S_END(b)) || (S_SIZE(a) == 0 && S_SIZE(b) == 0))
+
+
+/* ---- splines --------------------------------------------------------------- */
+static const T BS_ZERO = 0;
+static const T BS_ONE = 1;
+#define SP_N(sp)       ((sp)._coefficients.n)
+/* class invariant: exactly one coefficient array per interval of the support */
+#define spline_valid(sp) (support_valid((sp)._support) && SP_N(sp) == S_NINT((sp)._support))
+#define SP_REL(sp, j)  ((j) - S_START((sp)._support))
+/* coefficient k of the polynomial stored for absolute interval j (meaningful under HASINT) */
+#define COEF(sp, j, k) ((sp)._coefficients.d[SP_REL(sp, j)].c[k])
+/* ... and 0 where the spline is not supported */
+#define PIECE(sp, j, k) (HASINT((sp)._support, j) ? COEF(sp, j, k) : BS_ZERO)
+/* midpoint and half width of absolute interval j of grid g */
+#define XM(g, j)  ((GRID(g, (j) + 1) + GRID(g, j)) / 2)
+#define HW(g, j)  ((GRID(g, (j) + 1) - GRID(g, j)) / 2)
+#define SP_GRID(sp) ((sp)._support._grid)
+
+/* ---- polynomial evaluation: EVALP_n(c0..c(n-1), u) = sum c_k u^k.  Under BS_OPAQUE_EVALP the definition
+ *      is hidden behind an uninterpreted function: a proof that goes through for an arbitrary function holds
+ *      for the polynomial in particular (used where only congruence is needed, not arithmetic). */
+#ifdef BS_OPAQUE_EVALP
+T __CPROVER_uninterpreted_evalp1(T, T);
+#define EVALP_1(c0, u) __CPROVER_uninterpreted_evalp1(c0, u)
+#else
+#define EVALP_1(c0, u) ((c0))
+#endif
+#ifdef BS_OPAQUE_EVALP
+T __CPROVER_uninterpreted_evalp2(T, T, T);
+#define EVALP_2(c0, c1, u) __CPROVER_uninterpreted_evalp2(c0, c1, u)
+#else
+#define EVALP_2(c0, c1, u) ((c0) + (c1)*(u))
+#endif
+#ifdef BS_OPAQUE_EVALP
+T __CPROVER_uninterpreted_evalp3(T, T, T, T);
+#define EVALP_3(c0, c1, c2, u) __CPROVER_uninterpreted_evalp3(c0, c1, c2, u)
+#else
+#define EVALP_3(c0, c1, c2, u) ((c0) + (c1)*(u) + (c2)*(u)*(u))
+#endif
+#ifdef BS_OPAQUE_EVALP
+T __CPROVER_uninterpreted_evalp4(T, T, T, T, T);
+#define EVALP_4(c0, c1, c2, c3, u) __CPROVER_uninterpreted_evalp4(c0, c1, c2, c3, u)
+#else
+#define EVALP_4(c0, c1, c2, c3, u) ((c0) + (c1)*(u) + (c2)*(u)*(u) + (c3)*(u)*(u)*(u))
+#endif
+#ifdef BS_OPAQUE_EVALP
+T __CPROVER_uninterpreted_evalp5(T, T, T, T, T, T);
+#define EVALP_5(c0, c1, c2, c3, c4, u) __CPROVER_uninterpreted_evalp5(c0, c1, c2, c3, c4, u)
+#else
+#define EVALP_5(c0, c1, c2, c3, c4, u) ((c0) + (c1)*(u) + (c2)*(u)*(u) + (c3)*(u)*(u)*(u) + (c4)*(u)*(u)*(u)*(u))
+#endif
+#ifdef BS_OPAQUE_EVALP
+T __CPROVER_uninterpreted_evalp6(T, T, T, T, T, T, T);
+#define EVALP_6(c0, c1, c2, c3, c4, c5, u) __CPROVER_uninterpreted_evalp6(c0, c1, c2, c3, c4, c5, u)
+#else
+#define EVALP_6(c0, c1, c2, c3, c4, c5, u) ((c0) + (c1)*(u) + (c2)*(u)*(u) + (c3)*(u)*(u)*(u) + (c4)*(u)*(u)*(u)*(u) + (c5)*(u)*(u)*(u)*(u)*(u))
+#endif
+#ifdef BS_OPAQUE_EVALP
+T __CPROVER_uninterpreted_evalp7(T, T, T, T, T, T, T, T);
+#define EVALP_7(c0, c1, c2, c3, c4, c5, c6, u) __CPROVER_uninterpreted_evalp7(c0, c1, c2, c3, c4, c5, c6, u)
+#else
+#define EVALP_7(c0, c1, c2, c3, c4, c5, c6, u) ((c0) + (c1)*(u) + (c2)*(u)*(u) + (c3)*(u)*(u)*(u) + (c4)*(u)*(u)*(u)*(u) + (c5)*(u)*(u)*(u)*(u)*(u) + (c6)*(u)*(u)*(u)*(u)*(u)*(u))
+#endif
+#ifdef BS_OPAQUE_EVALP
+T __CPROVER_uninterpreted_evalp8(T, T, T, T, T, T, T, T, T);
+#define EVALP_8(c0, c1, c2, c3, c4, c5, c6, c7, u) __CPROVER_uninterpreted_evalp8(c0, c1, c2, c3, c4, c5, c6, c7, u)
+#else
+#define EVALP_8(c0, c1, c2, c3, c4, c5, c6, c7, u) ((c0) + (c1)*(u) + (c2)*(u)*(u) + (c3)*(u)*(u)*(u) + (c4)*(u)*(u)*(u)*(u) + (c5)*(u)*(u)*(u)*(u)*(u) + (c6)*(u)*(u)*(u)*(u)*(u)*(u) + (c7)*(u)*(u)*(u)*(u)*(u)*(u)*(u))
+#endif
+
+#define SPEC_MAX(a, b) ((a) < (b) ? (b) : (a))
+#define SPEC_MIN(a, b) ((a) < (b) ? (a) : (b))
 
 #endif
